@@ -77,6 +77,14 @@ def popn_orientation(repo):
             return True, n
         if isinstance(n, ast.Call) and last_attr(n.func) == "insert" and len(n.args) == 2 and "_stack.pop()" in U(n.args[1]):
             return False, n
+    # slice shape: values = tuple(reversed(self._stack[-n:])); del self._stack[-n:]
+    for n in body_walk(f):
+        if isinstance(n, ast.Subscript) and U(n.value) == "self._stack" and isinstance(n.slice, ast.Slice) and isinstance(n.ctx, ast.Load):
+            sl = n.slice
+            if sl.upper is None and isinstance(sl.lower, ast.UnaryOp) and isinstance(sl.lower.op, ast.USub):
+                par = getattr(n, "_parent", None)
+                rev = isinstance(par, ast.Call) and call_name(par) == "reversed"
+                return (True if rev else False), n
     raise AnalysisError("Formula.popn: accumulation shape not recognised")
 
 
@@ -259,6 +267,101 @@ def _parts_repr(v):
     return repr(v)
 
 
+
+def check_number_to_str(repo, rep):
+    """Digit accounting of number_to_str: with X = |exponent| and L = number of mantissa digits, the text
+    ``number + '0'*Z`` denotes the value iff Z == X - L + 1, and ``'0.' + '0'*Z + number`` iff Z == X - 1."""
+    f = repo.func("formula.py", "number_to_str")
+    blk = [n for n in f.body if isinstance(n, ast.If) and "'e' in" in U(n.test)]
+    if not blk:
+        raise AnalysisError("number_to_str: exponent branch not found")
+    blk = blk[0]
+
+    def lin_digits(e, sign):
+        """linear form (cX, cL, c0) over X = |int(exp)|, L = len(number); sign = +1/-1 for the sign of int(exp) on this path"""
+        if isinstance(e, ast.Constant) and isinstance(e.value, int):
+            return (0, 0, e.value)
+        if isinstance(e, ast.Call):
+            t = U(e).replace(" ", "")
+            if t == "abs(int(exp))":
+                return (1, 0, 0)
+            if t == "int(exp)":
+                return (sign, 0, 0)
+            if t == "len(number)":
+                return (0, 1, 0)
+            return None
+        if isinstance(e, ast.UnaryOp) and isinstance(e.op, ast.USub):
+            a = lin_digits(e.operand, sign)
+            return None if a is None else tuple(-x for x in a)
+        if isinstance(e, ast.BinOp) and isinstance(e.op, (ast.Add, ast.Sub)):
+            a, b = lin_digits(e.left, sign), lin_digits(e.right, sign)
+            if a is None or b is None:
+                return None
+            k = 1 if isinstance(e.op, ast.Add) else -1
+            return tuple(x + k * y for x, y in zip(a, b))
+        return None
+
+    results = []
+
+    def walk(stmts, env, sign):
+        for i, st in enumerate(stmts):
+            if isinstance(st, ast.Assign) and isinstance(st.targets[0], ast.Name):
+                v = st.value
+                if isinstance(v, ast.BinOp) and isinstance(v.op, ast.Mult):
+                    for a, b in ((v.left, v.right), (v.right, v.left)):
+                        if isinstance(a, ast.Constant) and a.value == "0":
+                            env = dict(env)
+                            env[st.targets[0].id] = ("zeros", b)
+            elif isinstance(st, ast.If):
+                t = U(st.test).replace(" ", "")
+                if t in ("int(exp)>0", "int(exp)>=0", "int(exp)>=1"):
+                    walk(list(st.body) + list(stmts[i + 1:]), env, +1)
+                    walk(list(st.orelse) + list(stmts[i + 1:]), env, -1)
+                    return
+                if t in ("int(exp)<0", "int(exp)<=0"):
+                    walk(list(st.body) + list(stmts[i + 1:]), env, -1)
+                    walk(list(st.orelse) + list(stmts[i + 1:]), env, +1)
+                    return
+            elif isinstance(st, ast.Return) and isinstance(st.value, ast.JoinedStr):
+                parts = []
+                for v in st.value.values:
+                    if isinstance(v, ast.Constant):
+                        parts.append(v.value)
+                    else:
+                        nm = U(v.value)
+                        parts.append(env.get(nm, ("var", nm)))
+                results.append((sign, parts, st))
+                return
+
+    walk(blk.body, {}, 0)
+    for sign, parts, st in results:
+        if sign == 0:
+            raise AnalysisError("number_to_str: return outside the sign branches")
+        zeros = [p for p in parts if isinstance(p, tuple) and p[0] == "zeros"]
+        shape = [p if isinstance(p, str) else p[0] if p[0] == "zeros" else p[1] for p in parts]
+        if sign > 0:
+            ok_shape = shape == ["number", "zeros"]
+            want = (1, -1, 1)
+            what = "large numbers: digits then X - L + 1 zeros"
+            key = "C08.R5@number_to_str:positive-exponent"
+        else:
+            ok_shape = shape == ["0.", "zeros", "number"]
+            want = (1, 0, -1)
+            what = "small numbers: '0.' then X - 1 zeros then digits"
+            key = "C08.R5@number_to_str:negative-exponent"
+        z = lin_digits(zeros[0][1], sign) if zeros else None
+        ok = ok_shape and z == want
+        detail = ""
+        if not ok:
+            detail = (f"renders {shape} with zero count (X, L, const) = {z}; the text denotes the stored value only for {want} "
+                      f"(X = |exponent|, L = mantissa digits): e.g. " + ("5e+16 is printed as 5000000000000000" if sign > 0 else "1.234e-05 is printed with the wrong number of zeros"))
+        rep.ob("C08.R5", st, f"number_to_str, {what}", ok, detail, key=key)
+    if len(results) < 2:
+        raise AnalysisError("number_to_str: both exponent branches not found")
+    ok = any(isinstance(n, ast.Call) and U(n.func) == "re.sub" and try_const(n.args[0]) in ("[,-.]", r"[.\-]", "[-.]", r"\D") for n in ast.walk(blk))
+    rep.ob("C08.R5", blk, "number_to_str: mantissa reduced to its digits", ok, "", key="C08.R5@number_to_str:digits")
+
+
 def run(repo, rep, tier):
     tree = repo.tree("formula.py")
     nfm_node = repo.module_assign("formula.py", "NODE_FUNCTION_MAP")
@@ -315,6 +418,14 @@ def run(repo, rep, tier):
     # ---- R0 stack primitives
     top_first, node = popn_orientation(repo)
     rep.ob("C08.R0", node, "popn accumulates in pop order" if top_first else "popn accumulates in reverse pop order", True, "", key="C08.R0@popn")
+    fpopn = repo.func("formula.py", "Formula.popn")
+    neg_slices = [n for n in body_walk(fpopn) if isinstance(n, ast.Subscript) and isinstance(n.slice, ast.Slice) and n.slice.upper is None
+                  and isinstance(n.slice.lower, ast.UnaryOp) and isinstance(n.slice.lower.op, ast.USub)]
+    if neg_slices:
+        cnt = U(neg_slices[0].slice.lower.operand)
+        guarded = any(isinstance(g, ast.If) and U(g.test).replace(" ", "") in (f"{cnt}==0", f"not{cnt}", f"{cnt}<1", f"{cnt}<=0") and any(isinstance(x, ast.Return) for x in g.body) for g in fpopn.body)
+        rep.ob("C08.R0", neg_slices[0], f"popn: `{U(neg_slices[0])}` with a possibly zero count", guarded,
+               "" if guarded else f"`[-{cnt}:]` is the whole stack when {cnt} == 0: a zero-argument function call swallows every operand below it", key="C08.R0@popn:zero-count")
     fpop = repo.func("formula.py", "Formula.pop")
     rep.ob("C08.R0", fpop, "pop returns self._stack.pop()", "self._stack.pop()" in U(fpop), "", key="C08.R0@pop")
     fpush = repo.func("formula.py", "Formula.push")
@@ -488,6 +599,7 @@ def run(repo, rep, tier):
         for env in Interp(m, top_first).run():
             ok = len(env["__pushes"]) == 1 and isinstance(env["__pushes"][0][0], Text) and env["__pushes"][0][0].parts in ([""], []) and env["__pops"] == 0
             rep.ob("C08.R5", m, f"{h}: pushes an empty argument", ok, "", key=f"C08.R5@{h}")
+    check_number_to_str(repo, rep)
     # COLON_NODE range handler: begin before end
     h = nfm.get("COLON_NODE")
     if h in methods:
@@ -533,6 +645,9 @@ VARIANTS = [
     M("ge-glyph-le", "formula.py", 'self.push(f"{arg1}≥{arg2}")', 'self.push(f"{arg1}≤{arg2}")', "C08.R2"),
     M("formula-call-order", "formula.py", "func(row, col, node)", "func(col, row, node)", "C08.R1"),
     M("drop-concat-dispatch", "formula.py", '    "CONCATENATION_NODE": "concat",\n', '    "CONCATENATION_NODE": None,\n', "C08.R1"),
+    M("number-small-zero-count", "formula.py", 'zeroes = "0" * (abs(int(exp)) - 1)', 'zeroes = "0" * (abs(int(exp)) - len(number))', "C08.R5"),
+    M("popn-slice-zero-count", "formula.py", "        values = ()\n        for _ in range(num_args):\n            values += (self._stack.pop(),)\n        return values",
+      "        values = tuple(reversed(self._stack[-num_args:]))\n        del self._stack[-num_args:]\n        return values", "C08.R0"),
     T("rename-args", "formula.py", '        arg2, arg1 = self.popn(2)\n        self.push(f"{arg1}-{arg2}")', '        rhs, lhs = self.popn(2)\n        self.push(f"{lhs}-{rhs}")'),
     T("sub-two-pops", "formula.py", '        arg2, arg1 = self.popn(2)\n        self.push(f"{arg1}-{arg2}")', '        arg2 = self.pop()\n        arg1 = self.pop()\n        self.push(f"{arg1}-{arg2}")'),
     T("function-slice-reverse", "formula.py", 'args = ",".join(reversed([str(x) for x in args]))\n        self.push(f"{func_name}({args})")',
